@@ -11,6 +11,15 @@ from .recorder import TooManyConsults
 
 def run_spec(spec: dict) -> list[dict]:
     from pyhms.tree import DemeTree
+    if spec.get("scramble"):
+        # C14: the prior state of the global generators must not matter for a seeded run
+        import random
+
+        import numpy as np
+        random.seed(int(spec["scramble"]))
+        np.random.seed(int(spec["scramble"]))
+        np.random.rand(int(spec["scramble"]) % 13 + 1)
+        random.random()
     cfg, rec = build(spec)
     status = "ok"
     info = ""
